@@ -179,27 +179,6 @@ Proof.
   eapply Post_fr; [apply (Fr_plain s s1); reflexivity|]. apply events_loop_post. exact J1.
 Qed.
 
-Lemma mview_fields : forall m' m0, mview m' = mview m0 ->
-  a_fd m' = a_fd m0 /\ a_fh m' = a_fh m0 /\ a_ck m' = a_ck m0 /\ a_tm m' = a_tm m0 /\ a_exp m' = a_exp m0 /\
-  a_tk m' = a_tk m0 /\ a_ev m' = a_ev m0 /\ a_evp m' = a_evp m0 /\ a_rw m' = a_rw m0 /\ a_main m' = a_main m0 /\
-  a_quit m' = a_quit m0 /\ a_clk m' = a_clk m0.
-Proof.
-  intros m' m0 V.
-  repeat split.
-  - change (a_fd (mview m') = a_fd (mview m0)); rewrite V; reflexivity.
-  - change (a_fh (mview m') = a_fh (mview m0)); rewrite V; reflexivity.
-  - change (a_ck (mview m') = a_ck (mview m0)); rewrite V; reflexivity.
-  - change (a_tm (mview m') = a_tm (mview m0)); rewrite V; reflexivity.
-  - change (a_exp (mview m') = a_exp (mview m0)); rewrite V; reflexivity.
-  - change (a_tk (mview m') = a_tk (mview m0)); rewrite V; reflexivity.
-  - change (a_ev (mview m') = a_ev (mview m0)); rewrite V; reflexivity.
-  - change (a_evp (mview m') = a_evp (mview m0)); rewrite V; reflexivity.
-  - change (a_rw (mview m') = a_rw (mview m0)); rewrite V; reflexivity.
-  - change (a_main (mview m') = a_main (mview m0)); rewrite V; reflexivity.
-  - change (a_quit (mview m') = a_quit (mview m0)); rewrite V; reflexivity.
-  - change (a_clk (mview m') = a_clk (mview m0)); rewrite V; reflexivity.
-Qed.
-
 (* ---------- raw events and descriptor callbacks ---------- *)
 Lemma J_set_kern_plain : forall b s k1, J b s -> ksame (kern s) k1 -> J b (set_kern s k1).
 Proof.
